@@ -1,14 +1,15 @@
 (* Property C07 — each user's reward is their weight share per epoch, however claims are scheduled. PARTIAL.
    Proved: the per-farm-epoch formula (floor(rate * user weight / total weight) with the carry-forward weights of the
    stored history, only for epochs after the cursor, from the farm's start, before its end, within its budget);
-   Rewards query = what an immediate Claim pays, for users staking one LP token; a claim moves the cursor to its
-   bound. Refuted (genuine defects, known findings F-until, F-first-epoch): schedule independence for claims with
+   Rewards query = what an immediate Claim pays, for users staking ANY number of LP tokens, in every reachable world
+   (C07_rewards_query_equals_claim_*: the claim's walk through the denoms is framed denom by denom); a claim moves the
+   cursor to its bound. Refuted (genuine defects, known findings F-until, F-first-epoch): schedule independence for claims with
    an until_epoch older than the newest snapshot, and the first effective epoch of a new LP denom for users with
-   an older cursor. Not proved: schedule independence outside those classes and query = claim for users staking
-   several LP tokens (both covered by the correspondence: Rewards is queried before claims in the farm scenarios).
+   an older cursor. Not proved: schedule independence outside those classes (covered by the correspondence: Rewards is
+   queried before full and split claims in the farm scenarios).
    Statements only. *)
-From MD.Model Require Import Base Ownable Epoch PoolMath Types PoolManager FarmManager.
-From MD.Proofs Require Import WeightProofs FarmProofs RewardProofs.
+From MD.Model Require Import Base Ownable Epoch PoolMath Types PoolManager FarmManager Chain.
+From MD.Proofs Require Import WeightProofs FarmProofs RewardProofs FarmCustody FarmCustodyChain ClaimFrame.
 
 Theorem C07_reward_formula : forall s f lp recv until lc rs,
   farm_rewards s f lp recv until lc = Ok rs ->
@@ -54,7 +55,37 @@ Theorem C07_claim_moves_cursor : forall w sender funds until s' msgs,
     lc_get (fm_last_claimed s') sender = Some u.
 Proof. exact claim_moves_cursor. Qed.
 
+(* the Rewards query equals what an immediate Claim pays, for a user with open positions in ANY number of LP tokens: a claim
+   walks through the user's LP denoms updating farm budgets and the user's weight history of each as it goes, and the
+   rewards of a denom do not depend on what was updated for the others (farm identifiers unique) *)
+Theorem C07_rewards_query_equals_claim_for_any_number_of_lp_tokens : forall w sender until s' msgs,
+  addr_valid w sender = true -> NoDup (map f_id (fm_farms (w_fm w))) ->
+  claim w sender [] until = Ok (s', msgs) ->
+  exists total,
+    query_rewards w (w_fm w) sender until = aggregate_coins total /\
+    match total with
+    | [] => msgs = []
+    | _ => exists agg, aggregate_coins total = Ok agg /\ msgs = [plain (MBankSend sender agg)]
+    end.
+Proof. exact claim_pays_what_rewards_quotes. Qed.
+
+(* ... hence in every world reachable from genesis by any history *)
+Theorem C07_rewards_query_equals_claim_in_every_reachable_world : forall g w0 ops sender until s' msgs,
+  genesis_world g = Ok w0 -> 0 <= amount_of (fm_create_fee (g_fm g)) -> Forall op_ok ops ->
+  let w := run w0 ops in
+  addr_valid w sender = true ->
+  claim w sender [] until = Ok (s', msgs) ->
+  exists total,
+    query_rewards w (w_fm w) sender until = aggregate_coins total /\
+    match total with
+    | [] => msgs = []
+    | _ => exists agg, aggregate_coins total = Ok agg /\ msgs = [plain (MBankSend sender agg)]
+    end.
+Proof. exact reachable_claim_pays_what_rewards_quotes. Qed.
+
 Print Assumptions C07_reward_formula.
 Print Assumptions C07_reward_rounding.
 Print Assumptions C07_query_equals_claim_single_lp.
 Print Assumptions C07_claim_moves_cursor.
+Print Assumptions C07_rewards_query_equals_claim_for_any_number_of_lp_tokens.
+Print Assumptions C07_rewards_query_equals_claim_in_every_reachable_world.
